@@ -70,8 +70,8 @@ Qed.
 Theorem generic_hide_agree a b : net_agree a b ->
   Net_Model.generic_hide_hit matches pr a = Net_Model.generic_hide_hit matches pr b.
 Proof.
-  intros H. unfold Net_Model.generic_hide_hit.
-  rewrite (check_agree _ _ [] (na_generic_hide a b H)). reflexivity.
+  intros H. unfold Net_Model.generic_hide_hit. rewrite (na_tags a b H).
+  rewrite (check_agree _ _ (Net_Model.b_tags b) (na_generic_hide a b H)). reflexivity.
 Qed.
 
 Theorem removeparam_hits_agree a b :
